@@ -110,7 +110,18 @@ def failing_dump(ctx, obj, fmt, case, workdir, good_bytes, preexisting, main_var
     if stray:
         ctx.violation("no-stray-files", "a failed dump leaves no stray files next to the destination", case, observed=stray, expected=[])
     if audit is not None:
-        w = [(e[1], e[2]) for e in events if e[4] and os.path.abspath(e[1]) == os.path.abspath(dest)]
+        # only opens that truncate or create count (mode w/x, O_TRUNC, O_CREAT): they destroy the good copy / create a file
+        # even if a later step restores it; append/update opens that leave the bytes alone are not judged
+        def destructive(e):
+            mode, flags = e[2] or "", e[3] or 0
+            if "w" in mode or "x" in mode:
+                return True
+            if flags & os.O_TRUNC:
+                return True
+            if (flags & os.O_CREAT or "a" in mode) and not preexisting:
+                return True
+            return False
+        w = [(e[1], e[2]) for e in events if e[4] and destructive(e) and os.path.abspath(e[1]) == os.path.abspath(dest)]
         ctx.monitor("no-write-open-in-failing-dump", fired=bool(w))
         if w:
             ctx.violation("no-write-open-in-failing-dump", "the destination is not opened for writing inside a dump call that ends in an exception",
